@@ -456,6 +456,8 @@ def check_c20(tier, seed, res, work):
                 name = '.cql'
             entries.append((name, content.encode('utf-8')))
         decoys = [('readme.md', b'x'), ('rule.cql.bak', b'y'), ('cql', b'z')][:rng.randint(0, 3)]
+        # extensions that are not `.cql` for EITHER loader: other case, trailing dot, double extension
+        decoys += rng.sample([('RULE.CQL', b'FROM a AS b SELECT b'), ('c.Cql', b'FROM c AS d SELECT d'), ('e.cql.', b'e'), ('f.cqlx', b'f'), ('g.cql~', b'g')], rng.randint(0, 3))
         for nme, c in entries + decoys:
             open(os.path.join(rdir, nme), 'wb').write(c)
         rc, o, e = run([B + '/gen-script'], timeout=120, cwd=root + '/pathfinder-rules/gen-script')
